@@ -153,7 +153,7 @@ def opPointInPolygonPoly (pt : P) (p : Poly) : Except OpFault Bool := do
   pure (decide (inCount > 0))
 
 /-- the `MultiPolygon` branch: first member that contains the point decides (`Within` never reaches
-this branch: its own `switch outer.(type)` admits `geom.Polygon` only) -/
+this branch: its own `switch outer.(type)` accepts `geom.Polygon` only) -/
 def opPointInPolygonMulti (pt : P) : MPoly → Except OpFault Bool
   | [] => .ok false
   | pp :: rest => do
